@@ -23,6 +23,8 @@ EXPLANATION = (
     "generated in that very call (no cached ephemerals, hence unrelated session keys per circuit); every iteration of the hop loop of "
     "encrypt_cell / decrypt_cell applies its primitive or raises (no break / continue / return skips a layer); the crypto endpoint wraps the "
     "community's whole endpoint (self.endpoint) and replaces the community as its listener, so no cell reaches the handlers unauthenticated; "
+    "the community's public dispatcher on_packet (whose decode map holds the raw cell handler on_cell) is entered from PythonCryptoEndpoint.on_packet / "
+    "process_cell only - data that came out of a circuit or through an exit socket is never re-dispatched there; "
     "containers changed through self.<attr> are bound per instance, not once at class level (per-circuit state is not shared); the session keys "
     "are expanded from the whole handshake secret (never a slice of it) and the responder's secret contains a Diffie-Hellman result computed with a key "
     "that outlives the call (its identity key), so only the hop the originator selected can remove that hop's layer. Steps are recognised by what "
@@ -1482,16 +1484,27 @@ def _plan_of_local(ctx: Ctx, fi: FuncInfo, env, name: str, targets, outer) -> _P
     defs = [(st, v, idx) for st, v, idx in local_defs(fi, name) if not isinstance(st, ast.AugAssign)]
     if not defs:
         return None
-    alts = {}
+    alts, subs = {}, {}
     for st, v, idx in defs:
         if idx is not None or not isinstance(st, (ast.Assign, ast.AnnAssign)):
             return None
         a = _value_alts(fi, v)
         if a is None:
-            return None
+            # one of the bindings takes the plan from a helper (a generator / a function returning displays): its elements, with
+            # the facts that lead to this binding, are part of the plan
+            hc = strip_cast(v) if v is not None else None
+            while isinstance(hc, ast.Call) and isinstance(hc.func, ast.Name) and hc.func.id in ("list", "tuple", "iter") and len(hc.args) == 1 \
+                    and not hc.keywords and not isinstance(hc.args[0], ast.Starred):
+                hc = strip_cast(hc.args[0])             # the helper's elements in the helper's order
+            h = _helper(ctx, fi, hc) if isinstance(hc, ast.Call) else None
+            if h is None or h is fi or grow:
+                return None
+            subs[id(st)] = (hc, h)
+            a = []
         alts[id(st)] = a
     grow_nodes = [g for st, _ in grow for g in cfg.nodes_for(st)]
     elems, empties = [], []
+    full_defs: dict = {}
 
     def reaches(st, cut_nodes=()) -> bool:
         starts = [w for g in cfg.nodes_for(st) for w, lab in g.succ if lab != "exc"]
@@ -1503,6 +1516,18 @@ def _plan_of_local(ctx: Ctx, fi: FuncInfo, env, name: str, targets, outer) -> _P
         if not reaches(st, others):
             continue
         dom = _xfacts(ctx, fi, st, env)
+        if id(st) in subs:
+            sub = _plan_of_helper(ctx, fi, subs[id(st)][0], subs[id(st)][1], env, [*outer, *dom])
+            if sub is None:
+                return None
+            elems += sub.elems
+            ordered = ordered and sub.ordered
+            full_defs[id(st)] = not sub.empties
+            if sub.empties:
+                pf = _path_facts(ctx, fi, st, [st2 for st2, _, _ in defs if st2 is not st], targets)
+                here = [(fi, env, a, p) for a, p in pf if not isinstance(a, (ast.For, ast.AsyncFor, ast.While))]
+                empties += [[*e, *here] for e in sub.empties]
+            continue
         for kind, elts, fs in alts[id(st)]:
             extra = _xfacts_of(ctx, fi, [fact_of(a, p) for a, p in fs], env, at=st)
             for i, e in enumerate(elts):
@@ -1518,7 +1543,8 @@ def _plan_of_local(ctx: Ctx, fi: FuncInfo, env, name: str, targets, outer) -> _P
             dom = _xfacts(ctx, fi, st, env)
             for i, e in enumerate(elts):
                 elems.append(_Elem(fi, env, e, st, i, [*outer, *dom]))
-    marks = [(fi, st, "full" if all(kind == "list" and elts for kind, elts, _ in alts[id(st)]) else "empty") for st, _, _ in defs]
+    marks = [(fi, st, "full" if (full_defs.get(id(st), False) if id(st) in subs else all(kind == "list" and elts for kind, elts, _ in alts[id(st)]))
+              else "empty") for st, _, _ in defs]
     marks += [(fi, st, "full") for st, elts in grow if elts]
     return _Plan(elems, empties, ordered=ordered, marks=marks, var=name)
 
@@ -2220,6 +2246,23 @@ def _flag_reach(ctx: Ctx, fi: FuncInfo, starts=None, cut_edge=None, env=None, ga
     return seen
 
 
+def _proved_on_all_paths(ctx: Ctx, g: FuncInfo, env, at_nodes, key: str, value: bool) -> bool:
+    """Every path of g from its entry to one of at_nodes that is consistent in the outcomes of its tests of unchanging values
+    (_flag_reach) takes an edge on which the unchanging value `key` (_stable_key) has truthiness `value`."""
+    at_nodes = list(at_nodes)
+    if not at_nodes:
+        return False
+    resets: dict = {}
+    conds = _stable_conds(ctx, g, env, resets)
+    if not any(k == key for k, _ in conds.values()) or any(key in ks for ks in resets.values()):
+        return False
+
+    def cut(u, v, lab) -> bool:
+        return u in conds and lab in (True, False) and conds[u][0] == key and (conds[u][1] if lab else not conds[u][1]) is value
+    seen = _flag_reach(ctx, g, None, cut, env=env)
+    return not any(n in seen for n in at_nodes)
+
+
 def _exit_truth(ctx: Ctx, fi: FuncInfo, n, seen: dict | None = None) -> set:
     """Possible truthiness of the result when the function leaves through node n (seen: result of _flag_reach)."""
     if not (n.kind == "stmt" and isinstance(n.ast, ast.Return)):
@@ -2746,6 +2789,18 @@ def rule_duality(ctx: Ctx) -> None:
                             ((d2, d) in eq or any(f.op == "eq" and not f.pos and _eq_text(f) == (d2, flip) for f in s.facts)):
                         key, d, exp = (o2, d2, h2), d2, exp2
                         found.setdefault(key, s)
+            if exp is not None and not (exp[0] <= pos and exp[1] <= neg):
+                # a role fact that no single dominating test states (`elif relay and relay.rendezvous_relay: ... elif relay: <here>`):
+                # it holds here when every path that is consistent in its tests of unchanging values establishes it on the way
+                places = [(s.fi, s.env, s.call)]
+                if s.elem is not None:
+                    places.append((s.elem.fi, s.elem.env, s.elem.node))
+                if s.via:
+                    places.append((s.via[0][0], None, s.via[0][1]))
+                for want, have, val in ((exp[0], pos, True), (exp[1], neg, False)):
+                    for k in sorted(want - have):
+                        if any(_proved_on_all_paths(ctx, g, genv, ctx.cfg(g).nodes_for(a), k, val) for g, genv, a in places):
+                            have.add(k)
             ok = exp is not None and exp[0] <= pos and exp[1] <= neg and _site_cell(ctx, s) == "cell"
             if fname == "relay_cell" and d == "next_relay.direction" and ok:
                 # the direction of a relay route is FORWARD or BACKWARD (construction sites checked below): `!= one` is `== other`
@@ -3768,13 +3823,38 @@ class _HandOver:
         env = {p: ("param", p) for p in self.root.params()}
         return self.walk(self.root.node, self.root, env, 3)
 
-    def aeval(self, e, env):
+    def aeval(self, e, env, fi: FuncInfo | None = None):
         e = strip_cast(e)
         if isinstance(e, ast.Name):
             return env.get(e.id)
         if isinstance(e, (ast.Tuple, ast.List)) and not any(isinstance(x, ast.Starred) for x in e.elts):
-            return ("tuple", tuple(self.aeval(x, env) for x in e.elts))
+            return ("tuple", tuple(self.aeval(x, env, fi) for x in e.elts))
+        if isinstance(e, ast.Attribute) and isinstance(e.value, ast.Name) and e.value.id == "self" and "self" in env:
+            return ("attr", e.attr)                       # `queue = self.send_queue`: the object the attribute holds
+        if isinstance(e, ast.Attribute) and e.attr == "send_data":
+            return ("method", "send_data")                # `send_data = tunnel_community.send_data` bound early
+        if isinstance(e, ast.Call) and not e.keywords and chain(e.func) in ("partial", "functools.partial") and e.args \
+                and not any(isinstance(x, ast.Starred) for x in e.args) and self.aeval(e.args[0], env, fi) == ("method", "send_data"):
+            return ("partial", "send_data", tuple(self.aeval(x, env, fi) for x in e.args[1:]))     # leading arguments bound early
+        if isinstance(e, ast.Call) and not e.keywords and fi is not None:
+            # an iterable handed on as a value (`chain(((address, packet),), self._drain(queue))` passed to a hook): its known leading
+            # elements.  It may be a one-shot iterator, so the value is only kept under a name that is read exactly once (LAZY).
+            c = chain(e.func)
+            t = _new_helper(self.ctx, fi, e) if c not in ("iter", "list", "tuple", "chain", "itertools.chain") else None
+            if c in ("iter", "list", "tuple", "chain", "itertools.chain") or (t is not None and _is_generator(t)):
+                return ("lazy", self.aiter(e, env, fi))
         return None
+
+    @staticmethod
+    def read_once(fn, name: str) -> bool:
+        return sum(1 for n in ast.walk(fn) if isinstance(n, ast.Name) and n.id == name and isinstance(n.ctx, ast.Load)) == 1 and \
+            not any(isinstance(n, (ast.Global, ast.Nonlocal)) and name in n.names for n in ast.walk(fn))
+
+    def keep(self, fn, name: str, v):
+        """The abstract value to remember for `name` of function fn: a one-shot iterable only when the name is read once."""
+        if isinstance(v, tuple) and v[0] == "lazy" and not self.read_once(fn, name):
+            return None
+        return v
 
     def aiter(self, e, env, fi: FuncInfo | None = None, depth: int = 2) -> tuple:
         """The values the first iterations over expression e bind, as far as they are known: the elements of a display / known tuple,
@@ -3803,7 +3883,7 @@ class _HandOver:
         if isinstance(e, ast.Call):
             return ()
         v = self.aeval(e, env)
-        return tuple(v[1]) if isinstance(v, tuple) and v[0] == "tuple" else ()
+        return tuple(v[1]) if isinstance(v, tuple) and v[0] in ("tuple", "lazy") else ()
 
     def produced(self, t: FuncInfo, call: ast.Call, env, depth: int) -> tuple:
         """Known leading elements of the iterable a call of the new helper t gives: for a generator the values of the yields reached
@@ -3856,7 +3936,7 @@ class _HandOver:
         v = self.aeval(e, env)
         return isinstance(v, tuple) and v[0] == "tuple"
 
-    def args(self, call: ast.Call, env) -> list | None:
+    def args(self, call: ast.Call, env, fi: FuncInfo | None = None) -> list | None:
         out = []
         for a in call.args:
             if isinstance(a, ast.Starred):
@@ -3865,14 +3945,14 @@ class _HandOver:
                     return None
                 out += list(v[1])
             else:
-                out.append(self.aeval(a, env))
+                out.append(self.aeval(a, env, fi))
         return out
 
-    def bind(self, fn, call: ast.Call, env, skip_self: bool):
+    def bind(self, fn, call: ast.Call, env, skip_self: bool, fi: FuncInfo | None = None):
         a = fn.args
         if a.vararg or a.kwarg or any(k.arg is None for k in call.keywords):
             return None
-        vals = self.args(call, env)
+        vals = self.args(call, env, fi)
         names = [x.arg for x in a.posonlyargs + a.args][1 if skip_self else 0:]
         if vals is None:                    # `*something` that is not a known tuple: nothing is known about any parameter
             return dict.fromkeys(names)
@@ -3880,14 +3960,22 @@ class _HandOver:
             return None
         out = dict(zip(names, vals))
         for k in call.keywords:
-            out[k.arg] = self.aeval(k.value, env)
-        return out
+            out[k.arg] = self.aeval(k.value, env, fi)
+        return {k: self.keep(fn, k, v) for k, v in out.items()}
 
     def event(self, call: ast.Call, fi: FuncInfo | None, env, closures, depth):
         """-> list of (handed, sent) effects of one call, or None when the call is none of our business."""
         ch = chain(call.func) or ""
         vals = self.args(call, env)
         kw = {k.arg: self.aeval(k.value, env) for k in call.keywords if k.arg}
+        if isinstance(call.func, ast.Name) and env.get(call.func.id) == ("method", "send_data"):
+            ch = "send_data"
+        pre = env.get(call.func.id) if isinstance(call.func, ast.Name) else None
+        if isinstance(pre, tuple) and pre[:2] == ("partial", "send_data"):
+            ch, vals = "send_data", (None if vals is None else [*pre[2], *vals])
+        if isinstance(call.func, ast.Attribute) and call.func.attr in ("append", "appendleft") and isinstance(call.func.value, ast.Name) \
+                and env.get(call.func.value.id) == ("attr", "send_queue"):
+            ch = "self.send_queue." + call.func.attr
         if ch.endswith(".send_data") or ch == "send_data":
             dest = kw.get("dest_address", vals[2] if vals is not None and len(vals) > 2 else None)
             data = kw.get("data", vals[4] if vals is not None and len(vals) > 4 else None)
@@ -3910,7 +3998,7 @@ class _HandOver:
         if fi is not None and depth > 0:
             t = _new_helper(self.ctx, fi, call)
             if t is not None:
-                inner = self.bind(t.node, call, env, skip_self=len(_positional_params(t)) < len(t.node.args.posonlyargs + t.node.args.args))
+                inner = self.bind(t.node, call, env, skip_self=len(_positional_params(t)) < len(t.node.args.posonlyargs + t.node.args.args), fi=fi)
                 if inner is None:
                     raise AnalysisError(f"undecided: arguments of helper {t.qualname}")
                 eff = sorted(self.walk(t.node, t, {"self": None, **inner}, depth - 1))
@@ -3935,7 +4023,7 @@ class _HandOver:
 
         def targets(t, v, env) -> None:
             if isinstance(t, ast.Name):
-                env[t.id] = v
+                env[t.id] = self.keep(fn, t.id, v)
             elif isinstance(t, (ast.Tuple, ast.List)):
                 vs = list(v[1]) if isinstance(v, tuple) and v[0] == "tuple" and len(v[1]) == len(t.elts) else [None] * len(t.elts)
                 for x, y in zip(t.elts, vs):
@@ -3964,11 +4052,11 @@ class _HandOver:
                         if ev is not None:
                             effects = [(h or h2, s or s2) for h, s in effects for h2, s2 in ev]
                 if isinstance(a, ast.Assign):
-                    v = self.aeval(a.value, env)
+                    v = self.aeval(a.value, env, fi)
                     for t in a.targets:
                         targets(t, v, env)
                 elif isinstance(a, ast.AnnAssign) and a.value is not None:
-                    targets(a.target, self.aeval(a.value, env), env)
+                    targets(a.target, self.aeval(a.value, env, fi), env)
                 elif isinstance(a, (ast.AugAssign, ast.With, ast.AsyncWith, ast.Import, ast.ImportFrom, ast.Delete)):
                     for x in ast.walk(a):
                         if isinstance(x, ast.Name) and isinstance(x.ctx, (ast.Store, ast.Del)):
@@ -3977,7 +4065,14 @@ class _HandOver:
                     if isinstance(x, ast.NamedExpr):
                         env[x.target.id] = self.aeval(x.value, env)
                 if isinstance(parent_of(a), (ast.For, ast.AsyncFor)) and parent_of(a).iter is a:
-                    env[f"<iter {id(parent_of(a))}>"] = (self.aiter(a, env, fi), 0)       # the iterable of a `for` is evaluated here, once
+                    known = self.aiter(a, env, fi)
+                    src = strip_cast(a)
+                    while isinstance(src, ast.Call) and chain(src.func) in ("iter", "list", "tuple") and len(src.args) == 1 and not src.keywords:
+                        src = strip_cast(src.args[0])
+                    lazy = isinstance(src, ast.Name) and isinstance(env.get(src.id), tuple) and env.get(src.id)[0] == "lazy"
+                    if lazy and any(isinstance(x, (ast.For, ast.AsyncFor, ast.While)) for x in ancestors(parent_of(a)) if x is not fn):
+                        known = ()                      # a one-shot iterable walked by a loop that may run again: later runs see the rest only
+                    env[f"<iter {id(parent_of(a))}>"] = (known, 0)       # the iterable of a `for` is evaluated here, once
             for v, lab in node.succ:
                 env2 = env
                 if node.kind == "loop" and isinstance(a, (ast.For, ast.AsyncFor)) and lab in (True, False):
@@ -4273,6 +4368,43 @@ def rule_single_entry(ctx: Ctx) -> None:
               "setup_tunnels replaces the community by the crypto endpoint as listener of the wrapped endpoint",
               "setup_tunnels no longer takes the community off the wrapped endpoint / no longer registers the crypto endpoint on it: "
               "cells reach the community without passing the crypto endpoint")
+
+
+def _module_is_new(ctx: Ctx, m) -> bool:
+    import os
+    root = getattr(ctx.repo, "root", "/repo")
+    return m.relpath.startswith("ipv8/") and not os.path.exists(os.path.join(root, m.relpath))
+
+
+def rule_public_dispatch(ctx: Ctx) -> None:
+    """
+    The tunnel community's PUBLIC dispatcher (Community.on_packet: public decode map, which holds the raw cell handler on_cell under
+    message id 0) is entered from the crypto endpoint only: PythonCryptoEndpoint.on_packet hands on packets that are not cells, and
+    process_cell hands on cells whose layers it has just removed / authenticated.  on_cell and the handlers behind it rely on that -
+    they never look at keys.  Any other function of the anonymisation package that hands bytes to on_packet - in particular bytes that
+    came OUT of a circuit or in through an exit socket (on_packet_from_circuit, on_raw_data, on_data), whose content the far side
+    chooses freely - lets a party without the session keys have a cell of its own making handled as if it had arrived authenticated
+    on the circuit it names.
+    """
+    _CURRENT[0] = ctx
+    allowed = {"PythonCryptoEndpoint.on_packet", "PythonCryptoEndpoint.process_cell"}
+    n = 0
+    for m in ctx.repo.modules.values():
+        if not (m.relpath.startswith("ipv8/messaging/anonymization/") or _module_is_new(ctx, m)):
+            continue
+        for x in ast.walk(m.tree):
+            if not (isinstance(x, ast.Attribute) and x.attr == "on_packet" and isinstance(x.ctx, ast.Load)):
+                continue
+            fi = ctx.repo.function_of(x)
+            n += 1
+            ctx.check(_allowed_member(ctx, fi, allowed), "public-dispatch", fi if fi is not None else m.relpath, x,
+                      f"on_packet referenced in {fi.qualname if fi is not None else m.relpath}",
+                      f"{fi.qualname if fi is not None else m.relpath} hands a packet to the public dispatcher on_packet (or passes that "
+                      "method on) outside PythonCryptoEndpoint.on_packet / process_cell: the public decode map contains the raw cell handler "
+                      "on_cell, which trusts that the crypto endpoint has removed and authenticated the layers - bytes dispatched this way "
+                      "(data that came out of a circuit or through an exit socket is chosen by the far side) are executed as a cell of the "
+                      "circuit they name without any session key having been involved: foreign data is delivered")
+    ctx.floor("public-dispatch", n, 1)
 
 
 _MUTABLE_CTORS = {"list", "dict", "set", "deque", "collections.deque", "defaultdict", "collections.defaultdict", "OrderedDict",
@@ -5006,9 +5138,255 @@ def _split_conditional_returns(ctx: Ctx, fi: FuncInfo, j: _Journal) -> None:
         j.set_list(blk, [new if x is r else x for x in blk])
 
 
+# ------------------------------------------------------------------ `match` statements the load-time normaliser left alone
+# The normaliser rewrites `match` into the if/elif chain Python executes only when the subject is a tuple of names / attribute reads
+# and no guard reads a capture.  What it leaves (a subject tuple of calls or of boolean expressions, `case (x, _, _) if x:`) is
+# rewritten here, scoped to this check and undone afterwards:
+#   * the components of a subject TUPLE DISPLAY are evaluated once, left to right, into locals placed where the `match` stood (a tuple
+#     display always matches a sequence pattern of its own length, so the pattern tests only concern the components).  When every
+#     component is free of calls / subscripts it is read in place instead (nothing runs between the subject and the tests but other
+#     such reads);
+#   * a capture name that every case binds to the SAME component and that has no other binding in the function becomes the local the
+#     component is evaluated into: every read of the name that the original executes without UnboundLocalError sees the same value
+#     (captures stay bound when a guard fails, exactly like the local);
+#   * `True` / `False` patterns on a component that is a bool by construction (bool(x), a comparison, `not`, and/or of those) are its
+#     truth / falsity;
+#   * other captures are substituted into the guard and bound at the head of the case body; this is only done when the name is not
+#     read outside that case.
+# Anything else (star patterns, mappings, positional class patterns, length mismatch) is left as it is.
+
+def _m_simple(e: ast.AST) -> bool:
+    if isinstance(e, (ast.Name, ast.Constant)):
+        return True
+    return isinstance(e, ast.Attribute) and _m_simple(e.value)
+
+
+def _m_is_bool_call(e: ast.AST) -> bool:
+    return isinstance(e, ast.Call) and isinstance(e.func, ast.Name) and e.func.id == "bool" and len(e.args) == 1 and not e.keywords \
+        and not isinstance(e.args[0], ast.Starred)
+
+
+def _m_pure(e: ast.AST) -> bool:
+    if _m_simple(e):
+        return True
+    if isinstance(e, ast.UnaryOp) and isinstance(e.op, ast.Not):
+        return _m_pure(e.operand)
+    if isinstance(e, ast.BoolOp):
+        return all(_m_pure(v) for v in e.values)
+    if isinstance(e, ast.Compare):
+        return _m_pure(e.left) and all(_m_pure(c) for c in e.comparators)
+    if _m_is_bool_call(e):
+        return _m_pure(e.args[0])
+    return False
+
+
+def _m_boolean(e: ast.AST) -> bool:
+    """The value of e is True or False by construction."""
+    if isinstance(e, ast.Constant):
+        return isinstance(e.value, bool)
+    if isinstance(e, ast.UnaryOp) and isinstance(e.op, ast.Not):
+        return True
+    if isinstance(e, ast.Compare):
+        return True
+    if isinstance(e, ast.BoolOp):
+        return all(_m_boolean(v) for v in e.values)
+    return _m_is_bool_call(e)
+
+
+def _m_truth(e: ast.AST) -> ast.AST:
+    """An expression with the same truth value as e (a fresh tree): bool(x) -> x inside and/or/not."""
+    if _m_is_bool_call(e):
+        return _m_truth(e.args[0])
+    if isinstance(e, ast.UnaryOp) and isinstance(e.op, ast.Not):
+        return ast.UnaryOp(op=ast.Not(), operand=_m_truth(e.operand))
+    if isinstance(e, ast.BoolOp):
+        return ast.BoolOp(op=e.op, values=[_m_truth(v) for v in e.values])
+    return clone(e)
+
+
+def _m_pattern(pat: ast.AST, subj, hoisted: set):
+    """(condition | None = always, [(capture, source expression)]) of pattern `pat` against subj = (expression to read, the expression
+    it was evaluated from) or a list of those for the components of a tuple display."""
+    if isinstance(pat, ast.MatchAs):
+        if pat.pattern is None and pat.name is None:
+            return None, []
+        if isinstance(subj, list) and pat.name is not None:
+            raise _Bail                                    # the tuple itself is captured
+        if pat.pattern is None:
+            return None, ([] if pat.name is None or pat.name in hoisted else [(pat.name, clone(subj[0]))])
+        cond, caps = _m_pattern(pat.pattern, subj, hoisted)
+        if pat.name is not None and pat.name not in hoisted:
+            caps = [*caps, (pat.name, clone(subj[0]))]
+        return cond, caps
+    if isinstance(pat, ast.MatchSequence):
+        if not isinstance(subj, list) or len(subj) != len(pat.patterns) or any(isinstance(p, ast.MatchStar) for p in pat.patterns):
+            raise _Bail
+        conds, caps = [], []
+        for p, s in zip(pat.patterns, subj):
+            c, k = _m_pattern(p, s, hoisted)
+            if c is not None:
+                conds.append(c)
+            caps += k
+        return (ast.BoolOp(op=ast.And(), values=conds) if len(conds) > 1 else conds[0] if conds else None), caps
+    if isinstance(pat, ast.MatchOr):
+        conds = []
+        for p in pat.patterns:
+            c, k = _m_pattern(p, subj, hoisted)
+            if k:
+                raise _Bail
+            if c is None:
+                return None, []
+            conds.append(c)
+        return ast.BoolOp(op=ast.Or(), values=conds), []
+    if isinstance(subj, list):
+        raise _Bail
+    use, orig = subj
+    if isinstance(pat, ast.MatchValue):
+        return ast.Compare(left=clone(use), ops=[ast.Eq()], comparators=[clone(pat.value)]), []
+    if isinstance(pat, ast.MatchSingleton):
+        if isinstance(pat.value, bool) and _m_boolean(orig):
+            t = _m_truth(use) if use is orig else clone(use)
+            return (t if pat.value else ast.UnaryOp(op=ast.Not(), operand=t)), []
+        return ast.Compare(left=clone(use), ops=[ast.Is()], comparators=[ast.Constant(value=pat.value)]), []
+    raise _Bail
+
+
+def _m_captures(pat: ast.AST, top: bool, path, out: list) -> None:
+    """(name, component index | None when the capture is not a whole component of the subject tuple) of every capture in pat"""
+    if isinstance(pat, ast.MatchAs):
+        if pat.name is not None:
+            out.append((pat.name, path if pat.pattern is None else None))
+        if pat.pattern is not None:
+            _m_captures(pat.pattern, top, path if pat.name is None else None, out)
+    elif isinstance(pat, ast.MatchSequence) and top:
+        for i, p in enumerate(pat.patterns):
+            _m_captures(p, False, i, out)
+    else:
+        for n in ast.walk(pat):
+            if n is not pat and isinstance(n, (ast.MatchAs, ast.MatchStar)) and n.name is not None:
+                out.append((n.name, None))
+            if isinstance(n, ast.MatchMapping) and n.rest is not None:
+                out.append((n.rest, None))
+
+
+def _desugar_match(ctx: Ctx, fi: FuncInfo, st: ast.Match, j: _Journal, serial: int) -> bool:
+    blk = _block_holding(st)
+    if blk is None:
+        return False
+    taken = _names_of(fi.node)
+    subject = st.subject
+    comps = list(subject.elts) if isinstance(subject, ast.Tuple) and not any(isinstance(x, ast.Starred) for x in subject.elts) else None
+    caps_all: list = []
+    for c in st.cases:
+        _m_captures(c.pattern, comps is not None, None, caps_all)
+    in_patterns = {id(n) for c in st.cases for n in ast.walk(c.pattern)}
+    hoist: dict = {}                                   # component index -> capture name
+    if comps is not None:
+        for name in sorted({n for n, _ in caps_all}):
+            where = {p for n, p in caps_all if n == name}
+            if len(where) != 1 or None in where or is_param(fi, name) or local_defs(fi, name):
+                continue
+            if any(isinstance(n, (ast.MatchAs, ast.MatchStar)) and n.name == name and id(n) not in in_patterns for n in ast.walk(fi.node)):
+                continue                                   # another match statement binds the name too
+            if any(isinstance(n, (ast.Global, ast.Nonlocal)) and name in n.names for n in ast.walk(fi.node)):
+                continue
+            hoist.setdefault(next(iter(where)), name)
+    hoisted = set(hoist.values())
+    pre: list = []
+    try:
+        if comps is not None:
+            all_pure = all(_m_pure(c) for c in comps)
+            subj: list = []
+            for i, c in enumerate(comps):
+                if i in hoist:
+                    nm = hoist[i]
+                elif all_pure or isinstance(c, (ast.Name, ast.Constant)):
+                    subj.append((c, c))
+                    continue
+                else:
+                    nm = f"_match{serial}_{i}"
+                    if nm in taken:
+                        raise _Bail
+                pre.append(ast.Assign(targets=[ast.Name(id=nm, ctx=ast.Store())], value=clone(c)))
+                subj.append((ast.Name(id=nm, ctx=ast.Load()), c))
+        elif _m_pure(subject):
+            subj = (subject, subject)                       # type: ignore[assignment]
+        else:
+            nm = f"_match{serial}"
+            if nm in taken:
+                raise _Bail
+            pre.append(ast.Assign(targets=[ast.Name(id=nm, ctx=ast.Store())], value=clone(subject)))
+            subj = (ast.Name(id=nm, ctx=ast.Load()), subject)     # type: ignore[assignment]
+        arms = []
+        for c in st.cases:
+            cond, caps = _m_pattern(c.pattern, subj, hoisted)
+            guard = clone(c.guard) if c.guard is not None else None
+            if caps:
+                names = [k for k, _ in caps]
+                if len(set(names)) != len(names):
+                    raise _Bail
+                inside = {id(n) for n in ast.walk(c)}
+                for n in ast.walk(fi.node):
+                    if isinstance(n, ast.Name) and n.id in names and isinstance(n.ctx, ast.Load) and id(n) not in inside:
+                        raise _Bail                        # the capture is read outside its case: it must be bound even when the guard fails
+                if guard is not None:
+                    if any(isinstance(n, (ast.Lambda, ast.GeneratorExp, ast.ListComp, ast.SetComp, ast.DictComp, ast.NamedExpr)) for n in ast.walk(guard)):
+                        raise _Bail
+                    for k, v in caps:
+                        guard = _subst_name(guard, k, v)
+            if guard is not None:
+                cond = guard if cond is None else ast.BoolOp(op=ast.And(), values=[cond, guard])
+            body = [ast.Assign(targets=[ast.Name(id=k, ctx=ast.Store())], value=v) for k, v in caps] + list(c.body)
+            arms.append((cond, body))
+    except _Bail:
+        return False
+    chain_: list = []
+    for cond, body in reversed(arms):
+        chain_ = body if cond is None else [ast.If(test=cond, body=body, orelse=chain_)]
+    new = [*pre, *chain_]
+    if not new:
+        new = [ast.Pass()]
+    reused = [s for c in st.cases for s in c.body]
+    holder = st._parent
+    for s in new:
+        if not any(s is r for r in reused):
+            for n in ast.walk(s):
+                if not hasattr(n, "lineno") and isinstance(n, (ast.stmt, ast.expr)):
+                    ast.copy_location(n, st)
+            ast.fix_missing_locations(s)
+    for r in reused:
+        j.log.append(("parent", r, getattr(r, "_parent", None)))
+    for s in new:
+        if any(s is r for r in reused):
+            s._parent = holder  # type: ignore[attr-defined]
+        else:
+            _adopt(j, s, holder)
+    j.set_list(blk, [y for x in blk for y in (new if x is st else [x])])
+    return True
+
+
+def _desugar_matches(ctx: Ctx, j: _Journal) -> None:
+    serial = 0
+    for m in ctx.repo.modules.values():
+        if "match " not in m.src or "case " not in m.src:
+            continue
+        for fi in list(m.all_functions):
+            for _ in range(12):
+                ms = [n for n in walk_no_nested(fi.node) if isinstance(n, ast.Match)]
+                done = False
+                for st in ms:
+                    serial += 1
+                    if _desugar_match(ctx, fi, st, j, serial):
+                        done = True
+                        break
+                if not done:
+                    break
+
+
 def _desugar_managers(ctx: Ctx) -> _Journal:
     j = _Journal()
     try:
+        _desugar_matches(ctx, j)
         for m in ctx.repo.modules.values():
             if "with " not in m.src:
                 continue
@@ -5044,6 +5422,7 @@ def run(ctx: Ctx) -> None:
         rule_fresh_ephemerals(ctx)
         rule_whole_secret(ctx)
         rule_single_entry(ctx)
+        rule_public_dispatch(ctx)
         rule_per_circuit_state(ctx)
         _refs_understood(ctx)
         ctx.assume("ChaCha20-Poly1305 in ipv8_rust_tunnels.SessionKeys.encrypt_str/decrypt_str: decrypt raises ValueError on any altered byte; ciphertexts under different keys differ (trusted)")
@@ -5055,6 +5434,10 @@ def run(ctx: Ctx) -> None:
 
 
 WITNESSES = [
+    {"name": "data out of a circuit re-enters the public dispatcher (reaches on_cell unauthenticated)", "file": TC, "rule": "public-dispatch",
+     "old": "        if self._prefix != data[:22]:\n            return\n        msg_id = data[22]\n        if msg_id in self.decode_map_private:\n",
+     "new": "        if self._prefix != data[:22]:\n            return\n        msg_id = data[22]\n        if msg_id not in self.decode_map_private:\n"
+            "            self.on_packet((source_address, data), warn_unknown=False)\n        if msg_id in self.decode_map_private:\n"},
     {"name": "pre-fix: only ValueError from the AEAD converted", "file": CR, "rule": "drop-on-failure",
      "old": "                cell.message = hop.keys.decrypt_str(cell.message, direction)\n            except Exception as e:",
      "new": "                cell.message = hop.keys.decrypt_str(cell.message, direction)\n            except ValueError as e:"},
